@@ -598,7 +598,7 @@ func (c Constant) String() string {
 		}
 		var s strings.Builder
 		s.WriteRune('[')
-		s.WriteString((*c.fst).String())
+		writeFirstElem(&s, (*c.fst).String())
 		c = *c.snd
 		for !c.IsListNil() {
 			s.WriteString(", ")
@@ -613,7 +613,7 @@ func (c Constant) String() string {
 		}
 		var s strings.Builder
 		s.WriteRune('[')
-		s.WriteString((*c.fst.fst).String())
+		writeFirstElem(&s, (*c.fst.fst).String())
 		s.WriteString(" : ")
 		s.WriteString((*c.fst.snd).String())
 		c = *c.snd
@@ -650,6 +650,16 @@ func (c Constant) String() string {
 	default:
 		return "?" // cannot happen
 	}
+}
+
+// writeFirstElem writes the first element after an opening bracket. The lexer
+// reads "[-" and "[+" as temporal operator tokens, so an element that starts
+// with a sign is separated from the bracket by a space.
+func writeFirstElem(s *strings.Builder, elem string) {
+	if strings.HasPrefix(elem, "-") || strings.HasPrefix(elem, "+") {
+		s.WriteRune(' ')
+	}
+	s.WriteString(elem)
 }
 
 // DisplayString returns a string representation of the constant without escaping Unicode characters.
